@@ -111,6 +111,8 @@ class PersistentThreadWorker(PersistentWorker, ThreadWorker):
         try:
             # _counter does not exist if the child is terminated before it could initialize itself
             self._results_pipe.child_end.put((getattr(self, '_counter', 0), False, None, self.id))
+        except OSError:
+            pass # the pipe has already been closed (by a cleanup which has been interrupted right after that)
         finally:
             if hasattr(self._results_pipe.child_end, 'close'):
                 logger.debug('Closing child\'s pipe end')
